@@ -97,7 +97,12 @@ func findPkgPath(dirPath *pathlib.Path) (string, error) {
 	if err != nil {
 		return "", stackerr.NewStackErr(err)
 	}
-	moduleName := modfile.ModulePath(fileBytes)
+	// A full (lax) parse rather than modfile.ModulePath, which only understands
+	// the one-line form of the directive and not `module ( path )`.
+	moduleName := ""
+	if parsed, err := modfile.ParseLax(goModFile.String(), fileBytes, nil); err == nil && parsed.Module != nil {
+		moduleName = parsed.Module.Mod.Path
+	}
 	if moduleName == "" {
 		return "", stackerr.NewStackErr(ErrGoModInvalid)
 	}
